@@ -254,8 +254,36 @@ fn op_ides2(a: &str, b: &str) -> String {
     format!("{} | {}", nat, bri)
 }
 
+/// a value whose `Serialize` impl gives up after `k` elements of a sequence have been written (what the bridge's `to_vec` and the native
+/// `to_vec` leave behind on this thread after a failed call must not show in the next one)
+struct Failing(usize);
+impl Serialize for Failing {
+    fn serialize<S: serde::Serializer>(&self, s: S) -> Result<S::Ok, S::Error> {
+        use serde::ser::{Error, SerializeSeq};
+        let mut q = s.serialize_seq(Some(self.0 + 1))?;
+        for i in 0 .. self.0 { q.serialize_element(&(i as u8))? }
+        Err(S::Error::custom("gives up"))
+    }
+}
+impl<C> minicbor::Encode<C> for Failing {
+    fn encode<W: minicbor::encode::Write>(&self, e: &mut minicbor::Encoder<W>, _: &mut C) -> Result<(), minicbor::encode::Error<W::Error>> {
+        e.array(self.0 as u64 + 1)?;
+        for i in 0 .. self.0 { e.u8(i as u8)?; }
+        Err(minicbor::encode::Error::message("gives up"))
+    }
+}
+
+/// `serfail <k> <both|bridge|native>`: failed `to_vec` calls; `err | err`
+fn op_serfail(k: &str, which: &str) -> String {
+    let k = match k.parse::<usize>() { Ok(k) if k <= 100000 => k, _ => return "bad-op".into() };
+    let a = if which != "native" { match minicbor_serde::to_vec(&Failing(k)) { Ok(b) => hex(&b), Err(_) => "err".into() } } else { "-".into() };
+    let b = if which != "bridge" { match minicbor::to_vec(&Failing(k)) { Ok(b) => hex(&b), Err(_) => "err".into() } } else { "-".into() };
+    format!("{} | {}", a, b)
+}
+
 fn dispatch(w: &[&str]) -> String {
     if w.len() != 3 { return "bad-op".into() }
+    if w[0] == "serfail" { return op_serfail(w[1], w[2]) }
     if w[0] == "ides2" { return op_ides2(w[1], w[2]) }
     if w[0] == "ideb" { return op_ideb(w[1], w[2]) }
     if w[0] == "iserh" { return op_iserh(w[1], w[2]) }
